@@ -377,3 +377,192 @@ def rule_conjugation(run: Run, prog: Program) -> int:
                     n += 1
                     run.add("E8", fn.short, label, PROVEN, "conjugation by X and X.inverse()", loc)
     return n
+
+
+# ---------------------------------------------------------------------------------------------- V5: matrix-product form of the action
+class _Unreadable(Exception):
+    pass
+
+
+def _worlds(exprs: list[ast.AST], selfn: str) -> list[dict[str, bool]]:
+    """truth assignments of the `self.<attr>` tests that conditional expressions in the given expressions depend on"""
+    attrs: list[str] = []
+    for e in exprs:
+        for x in ast.walk(e):
+            if isinstance(x, ast.IfExp):
+                t = x.test.operand if isinstance(x.test, ast.UnaryOp) and isinstance(x.test.op, ast.Not) else x.test
+                if isinstance(t, ast.Attribute) and isinstance(t.value, ast.Name) and t.value.id == selfn and t.attr not in attrs:
+                    attrs.append(t.attr)
+    out = [{}]
+    for a in attrs:
+        out = [dict(w, **{a: v}) for w in out for v in (True, False)]
+    return out
+
+
+def rule_V5(run: Run, prog: Program) -> int:
+    run.rule("E4.V5",
+             "an __apply__ written with matrix products instead of the generic diagram obeys the same law: an index of the receiver that is "
+             "contracted with the transformation matrix M meets M's SECOND index (x'_i = M_ik x_k, the index acts covariantly), one contracted "
+             "with the inverse meets the inverse's FIRST index (l'_i = Minv_ki l_k, contravariantly), and that role agrees with the index type "
+             "the constructor chain assigns in the same case (dual / non-dual)")
+    tensor = prog.cls("Tensor")
+    trafo = prog.find_cls("TransformationTensor")
+    n = 0
+    for decl in prog.package_functions():
+        if decl.name != "__apply__" or decl.cls is None or not prog.is_subclass(decl.cls, tensor):
+            continue
+        if trafo is not None and prog.is_subclass(decl.cls, trafo):
+            continue  # t * s on transformations is composition, not the action on a geometric object
+        fn = prog.body_of(decl)
+        ps = fn.params()
+        if len(ps) < 2:
+            continue
+        selfn, tr = ps[0].arg, ps[1].arg
+        env = _single_assign_env(fn)
+
+        def leaf(e: ast.AST, world: dict, depth: int = 0):
+            """('M'|'MI'|'S', transposed?) or None"""
+            if depth > 6:
+                return None
+            if isinstance(e, ast.IfExp):
+                t, neg = (e.test.operand, True) if isinstance(e.test, ast.UnaryOp) and isinstance(e.test.op, ast.Not) else (e.test, False)
+                if isinstance(t, ast.Attribute) and isinstance(t.value, ast.Name) and t.value.id == selfn and t.attr in world:
+                    v = world[t.attr] != neg
+                    return leaf(e.body if v else e.orelse, world, depth + 1)
+                return None
+            if isinstance(e, ast.Name) and e.id in env:
+                return leaf(env[e.id], world, depth + 1)
+            src = ast.unparse(e)
+            if isinstance(e, ast.Attribute) and e.attr == "array":
+                b = e.value
+                if isinstance(b, ast.Name) and b.id == selfn:
+                    return "S"
+                if isinstance(b, ast.Name) and b.id == tr:
+                    return "M"
+                if isinstance(b, ast.Name) and b.id in env:
+                    inner = env[b.id]
+                    if _is_inverse_expr(inner) and tr in {x.id for x in ast.walk(inner) if isinstance(x, ast.Name)}:
+                        return "MI"
+                if _is_inverse_expr(b) and tr in {x.id for x in ast.walk(b) if isinstance(x, ast.Name)}:
+                    return "MI"
+            if isinstance(e, ast.Call) and _is_inverse_expr(e) and f"{tr}.array" in src:
+                return "MI"
+            return None
+
+        def mat(e: ast.AST, world: dict, contractions: list, depth: int = 0):
+            """(row slot, col slot); slots are (kind, index)"""
+            if depth > 10:
+                raise _Unreadable("expression too deep")
+            if isinstance(e, ast.Name) and e.id in env and leaf(e, world) is None:
+                return mat(env[e.id], world, contractions, depth + 1)
+            k = leaf(e, world)
+            if k is not None:
+                return ((k, 0), (k, 1))
+            if isinstance(e, ast.Attribute) and e.attr in ("T", "mT"):
+                r, c = mat(e.value, world, contractions, depth + 1)
+                return (c, r)
+            if isinstance(e, ast.BinOp) and isinstance(e.op, ast.MatMult):
+                a, b = mat(e.left, world, contractions, depth + 1), mat(e.right, world, contractions, depth + 1)
+                contractions.append((a[1], b[0]))
+                return (a[0], b[1])
+            if isinstance(e, ast.Call):
+                f = e.func
+                name = f.attr if isinstance(f, ast.Attribute) else getattr(f, "id", "")
+                if name in ("swapaxes", "transpose", "matrix_transpose"):
+                    base = e.args[0] if (isinstance(f, ast.Name) or (isinstance(f, ast.Attribute) and isinstance(f.value, ast.Name) and f.value.id in ("np", "numpy"))) and e.args \
+                        else (f.value if isinstance(f, ast.Attribute) else None)
+                    if base is None:
+                        raise _Unreadable(ast.unparse(e)[:40])
+                    r, c = mat(base, world, contractions, depth + 1)
+                    return (c, r)
+                if name == "matmul" and len(e.args) >= 2:
+                    a, b = mat(e.args[0], world, contractions, depth + 1), mat(e.args[1], world, contractions, depth + 1)
+                    flags = {k.arg: (isinstance(k.value, ast.Constant) and k.value.value is True) for k in e.keywords}
+                    if any(k.arg in ("transpose_a", "transpose_b") and not isinstance(k.value, ast.Constant) for k in e.keywords):
+                        raise _Unreadable("transpose flag is not a constant")
+                    if flags.get("transpose_a"):
+                        a = (a[1], a[0])
+                    if flags.get("transpose_b"):
+                        b = (b[1], b[0])
+                    contractions.append((a[1], b[0]))
+                    return (a[0], b[1])
+            raise _Unreadable(f"`{ast.unparse(e)[:40]}` is not a product of the matrix, its inverse and self.array")
+
+        # candidate expressions: values stored into <result>.array or handed to a constructor, that mention both self.array and the transformation
+        cands: list[tuple[ast.AST, ast.AST]] = []
+        for st in walk_no_nested(fn.node):
+            if isinstance(st, ast.Assign) and any(isinstance(t, ast.Attribute) and t.attr == "array" for t in st.targets):
+                cands.append((st, st.value))
+            elif isinstance(st, ast.Return) and isinstance(st.value, ast.Call) and st.value.args:
+                cands.append((st, st.value.args[0]))
+        for st, expr in cands:
+            names = {x.id for x in ast.walk(expr) if isinstance(x, ast.Name)}
+            full = ast.unparse(expr)
+            closure = set(names)
+            for nm in list(names):
+                if nm in env:
+                    closure |= {x.id for x in ast.walk(env[nm]) if isinstance(x, ast.Name)}
+            if tr not in closure or not any(isinstance(x, (ast.Call, ast.BinOp)) for x in ast.walk(expr)):
+                continue
+            if "matmul" not in full and "@" not in full:
+                continue
+            loc = f"{fn.module.rel}:{st.lineno}"
+            label = norm_stmt(st)[:90]
+            all_exprs = [expr] + [env[nm] for nm in closure if nm in env]
+            for world in _worlds(all_exprs, selfn):
+                n += 1
+                wl = ", ".join(f"{k}={v}" for k, v in world.items()) or "always"
+                contractions: list = []
+                try:
+                    mat(expr, world, contractions)
+                except _Unreadable as e:
+                    run.add("E4.V5", decl.short, f"{label} [{wl}]", UNDECIDED, f"matrix form not read: {e}", loc)
+                    continue
+                problems, roles = [], {}
+                for a, b in contractions:
+                    for s_, o in ((a, b), (b, a)):
+                        if s_[0] == "S" and o[0] in ("M", "MI"):
+                            if o[0] == "M":
+                                roles[s_[1]] = "covariant"
+                                if o[1] != 1:
+                                    problems.append(f"index {s_[1]} of self.array is contracted with the FIRST index of the matrix: that is the action of the "
+                                                    f"transpose (x'_i = M_ki x_k), not of the transformation")
+                            else:
+                                roles[s_[1]] = "contravariant"
+                                if o[1] != 0:
+                                    problems.append(f"index {s_[1]} of self.array is contracted with the SECOND index of the inverse: that is the action of the "
+                                                    f"inverse itself where its transpose is needed (l'_i = Minv_ki l_k)")
+                # declared index types in this world
+                declared = None
+                try:
+                    chain = CtorChain(prog)
+                    vs = set()
+                    for c in prog.concrete_subclasses(decl.cls):
+                        init = prog.lookup(c, "__init__")
+                        pre = {k: v for k, v in world.items() if init is not None and k in [p.arg for p in init.params()]}
+                        if len(pre) != len(world):
+                            continue
+                        for r in chain.run(c, pre):
+                            if r.get("_end") == "Tensor":
+                                vs.add(variance_of(r.get("covariant"), r.get("tensor_rank")))
+                    if len(vs) == 1 and None not in vs:
+                        declared = next(iter(vs))
+                except RecursionError:
+                    declared = None
+                if declared is not None and roles:
+                    want_role = "covariant" if declared[1] == 0 else ("contravariant" if declared[0] == 0 else None)
+                    if want_role is not None:
+                        for idx, role in sorted(roles.items()):
+                            if role != want_role:
+                                problems.append(f"index {idx} is transformed {role}ly (with the {'matrix' if role == 'covariant' else 'inverse'}) but the "
+                                                f"constructor chain makes the indices {want_role} in the case {wl}")
+                if problems:
+                    run.add("E4.V5", decl.short, f"{label} [{wl}]", VIOLATION, "; ".join(dict.fromkeys(problems)) +
+                            f" - in the case {wl} the transformed object is not the image of the original (t*(s*x) != (t*s)*x, incidence is lost)", loc)
+                elif roles:
+                    run.add("E4.V5", decl.short, f"{label} [{wl}]", PROVEN,
+                            f"indices {sorted(roles)} act {', '.join(sorted(set(roles.values())))}ly with the right index of the matrix" +
+                            (f"; agrees with the declared index types {declared}" if declared else ""), loc)
+                else:
+                    run.add("E4.V5", decl.short, f"{label} [{wl}]", UNDECIDED, "no contraction between self.array and the transformation recognised", loc)
+    return n
